@@ -94,6 +94,9 @@ Descs == [pre : BOOLEAN, post : BOOLEAN, systems : SeqsUpTo(SysDescs, MaxSystems
 Init == desc \in Descs /\ pc = <<"start", 0, "", 0>> /\ log = <<>> /\ nsys = 0 /\ nag = 0
 Next == pc[1] # "done" /\ Step
 Spec == Init /\ [][Next]_vars
+\* liveness: decoding ends for every description (with the complete log, by C18_Order)
+FairSpec == Spec /\ WF_vars(Next)
+C18_Ends == <>(pc[1] = "done")
 
 C18_Order    == pc[1] = "done" => log = ExpectedLog(desc)
 C18_Prefix   == \A m \in 1..Len(log) : m <= Len(ExpectedLog(desc)) /\ log[m] = ExpectedLog(desc)[m]
